@@ -53,7 +53,8 @@ def main():
         if rc != 0:
             meta['error'] = 'patch does not apply: ' + out[-300:]
             return finish(meta, src, prop, name)
-        rc, out = sh('/venv/bin/python -m pytest -q -p no:cacheprovider -x', cwd=wt)
+        # PYTHONPATH: the package is installed in /venv as an editable install of /repo; without it the tests would import /repo's sources, not the changed ones
+        rc, out = sh('PYTHONPATH=%s/src /venv/bin/python -m pytest -q -p no:cacheprovider -x' % wt, cwd=wt)
         tail = out.strip().splitlines()[-1] if out.strip() else ''
         meta['ran'].append('pytest with change -> %d (%s)' % (rc, tail))
         meta['tests_pass_with_change'] = (rc == 0 and ' passed' in tail)
